@@ -15,6 +15,7 @@ import Wax.Proofs.Exhaustive
 import Wax.Cmd.Frag2
 import Wax.Cmd.Build
 import Wax.Cmd.Match
+import Wax.Cmd.Walk
 import Wax.Unicode
 import Wax.SemSpec
 import Wax.RuleSpec
@@ -183,6 +184,9 @@ def handle (line : String) : String :=
     match parse (unhex h) with
     | .err _ => "err"
     | .ok t => cmdF t
+  | "W" :: rest => cmdW rest
+  | "WP" :: rest => cmdWP rest
+  | "NP" :: rest => cmdNP rest
   | ["M", e, p] => cmdM e p        -- captures of Glob::matched (Re.exec on Re.hirNorm)
   | ["M0", e, p] => cmdM0 e p      -- same without the regex-syntax normalisation (plain leftmost-first on the printed pattern)
   | ["N", e] => cmdN e             -- the normalised pattern, printed
@@ -192,6 +196,7 @@ partial def loop (h : IO.FS.Stream) : IO Unit := do
   let line ← h.getLine
   if line.isEmpty then return ()
   IO.println (handle line)
+  (← IO.getStdout).flush
   loop h
 
 def main : IO Unit := do loop (← IO.getStdin)
